@@ -3,6 +3,7 @@ import ChythonModel.Proofs.C11Frame
 import ChythonModel.Proofs.C11Block
 import ChythonModel.Proofs.C11Meta
 import ChythonModel.Proofs.C11Record
+import ChythonModel.Proofs.C11V3000
 import ChythonModel.Gen.PeriodicTable
 /-!
 # C11 — MDL write→read preserves the record: property theorems
@@ -302,5 +303,35 @@ example : isMEnd (exampleMol.name ++ sL "\n") = false ∧ (exampleMol.atoms.map 
 def TitleFull : Prop :=
   ∀ (name : Str), '\n' ∉ name →
     firstMEnd ([name ++ sL "\n", sL "\n", sL "\n", sL "  1  0\n", sL "atom\n", sL "M  END\n"]) = some 6
+
+/-! ## 7. V3000 -/
+
+/-- **v3000_atom_roundtrip**: the atom line `EMOLWrite` writes (`M  V30 n sym x y 0 m [CHG=c] [RAD=2] [MASS=i]`), after
+    the reader's `line[7:].strip()`, is tokenised by `emol.split` into exactly the written tokens and parsed to the same
+    symbol, charge (any integer), radical flag, isotope, mapping number and exact coordinates. `WFSym3`: the symbol has
+    no blank/parenthesis/quote and is not one of the reader's special spellings (`[`…, `NOT`…, `*`, `R#`, `D`). -/
+theorem v3000_atom_roundtrip (mapping : Bool) (n : Nat) (a : WAtom) (hs : WFSym3 a.sym) :
+    parseAtom3 (strip ((writeAtom3 mapping n a).drop 7)) = .ok (natDigits n, expectedAtom3 mapping a) :=
+  ChythonModel.Proofs.C11.v3000_atom_roundtrip mapping n a hs
+
+/-- tokens separated by single blanks are split back into exactly those tokens (the V3000 tokenizer on plain tokens) -/
+theorem v3000_split_join (ts : List Str) (h : ∀ t ∈ ts, Plain t) : v3split (joinWith [' '] ts) = ts :=
+  v3split_tokens ts h
+
+/-- every element symbol of the regenerated periodic table is a `WFSym3` symbol -/
+theorem symbols_fit_v3000 : ∀ r ∈ ChythonModel.Gen.periodicTable,
+    r.sym.toList ≠ [] ∧ (r.sym.toList.all fun c => !isSpace c && c != '(' && c != '"') = true ∧
+    startsWith r.sym.toList ['['] = false ∧ startsWith r.sym.toList (sL "NOT") = false ∧
+    r.sym.toList ≠ ['*'] ∧ r.sym.toList ≠ sL "R#" ∧ r.sym.toList ≠ ['D'] := by decide +kernel
+
+/-- wedge codes of the V3000 bond line: `CFG=1` ↦ +1, `CFG=3` ↦ −1, on the written ordered pair; order kept;
+    a bond without `CFG=` carries no mark (instances through writer and parser) -/
+theorem v3000_bond_cfg :
+    (writeWedge3 exampleMol.atoms (1, 7, 3, -1) >>= fun l => parseBond3 [sL "1", sL "2", sL "3"] (strip (l.drop 7))) =
+      .ok ((0, 1, 1), [(0, 1, -1)]) ∧
+    (writeWedge3 exampleMol.atoms (1, 7, 3, 1) >>= fun l => parseBond3 [sL "1", sL "2", sL "3"] (strip (l.drop 7))) =
+      .ok ((0, 1, 1), [(0, 1, 1)]) ∧
+    (writeBond3 exampleMol.atoms (2, 7, 999, 2) >>= fun l => parseBond3 [sL "1", sL "2", sL "3"] (strip (l.drop 7))) =
+      .ok ((0, 2, 2), []) := by decide +kernel
 
 end ChythonModel.Props.C11
